@@ -76,6 +76,9 @@ def v_median(vals):
 
 
 def array_sum(a, axis=None):
+    if axis is None and getattr(a, "_count_of", None) is not None and concrete_len_or_none(a) is None:
+        src, val = a._count_of
+        return count_equal(src, val)
     if axis is not None:
         return _axis_reduce(a, axis, v_sum)
     vals = _all_values(a)
@@ -110,6 +113,15 @@ def array_minmax_axis(a, axis, is_min):
 # ------------------------------------------------------------------ symbolic-length sums
 
 
+def concrete_len_or_none(a):
+    from .core import concrete_value
+
+    if a.ndim != 1:
+        return None
+    v = concrete_value(a.shape[0])
+    return None if v is None else int(v)
+
+
 class SumTag:
     def __init__(self, n, term):
         self.n = n  # V int: number of terms
@@ -134,6 +146,37 @@ def symbolic_sum(a):
         S.assume(S.Forall((n,), lambda j: implies(snap(j), v >= 1), name="count.at_least_one_if_some_entry_is_true"))
         c.used_axioms.add("count of true entries: 0 <= count <= length; some entry true => count >= 1")
     return v
+
+
+_COUNT_FUNCS = {}
+
+
+def count_equal(arr, value):
+    """The number of entries of the 1-D integer array `arr` equal to `value`, as an uninterpreted function of the value
+    (one function per array CONTENT): COUNT_arr(v), with 0 <= COUNT <= length and COUNT >= 1 as soon as some entry
+    equals v. Code and contracts that count the same array obtain the same term."""
+    from . import spec as S
+    from .core import and_, implies, to_z3, _numeric
+
+    c = ctx()
+    if arr.ndim != 1:
+        arr = arr.ravel()
+    key = "COUNT_%d_%d_%d" % (arr.storage.id, arr.storage.nwrites, id(arr._fwd) if arr._fwd is not None else 0)
+    if key not in _COUNT_FUNCS:
+        _COUNT_FUNCS[key] = z3.Function(key, z3.IntSort(), z3.IntSort())
+    f = _COUNT_FUNCS[key]
+    v = _numeric(value)
+    r = SymNum(f(to_z3(v, "int") if not isinstance(v, SymNum) or v.kind == "int" else z3.ToInt(to_z3(v))), "int")
+    n = arr.shape[0]
+    snap = arr.snapshot()
+    seen = c.ghost.setdefault("count_facts", set())
+    tkey = (key, r.t.get_id())
+    if tkey not in seen and not c.in_spec_probe():
+        seen.add(tkey)
+        c.assume(and_(r >= 0, r <= n))
+        S.assume(S.Forall((n,), lambda j: implies(_numeric(snap(j)) == v, r >= 1), name="count.at_least_one_if_some_entry_matches"))
+        c.used_axioms.add("count of entries equal to a value: uninterpreted function of the value per array content; 0 <= count <= length; some entry equal => count >= 1")
+    return r
 
 
 def tag_sum(v, n, term):
